@@ -46,6 +46,12 @@ func lifeScenario(p map[string]any) *Scenario {
 	}
 	sc.Check = func(x *X, e *End) []Violation {
 		var out []Violation
+		for _, o := range x.Log {
+			if o.Kind == "note" && o.What == "inheritable-descriptor" {
+				out = append(out, Violation{Property: "C13", Signature: "the notification descriptor is inheritable by child processes (not close-on-exec), so Close does not release the instance while a child lives", Detail: o.Arg})
+				break
+			}
+		}
 		if len(e.Pending) > 0 {
 			out = append(out, Violation{Property: "C05", Signature: "life: call never returned", Detail: fmt.Sprint(e.Pending, e.Blocked)})
 		}
